@@ -789,7 +789,20 @@ func ParseContracts(fset *token.FileSet, filename string, src []byte, cs *Contra
 					sepLen = len(" after call ")
 				}
 				if at < 0 {
-					return fmt.Errorf("%s: ghost clause needs 'at call' or 'after call'", where)
+					// ghost name += expr at loop K: advanced each time loop K is entered from outside
+					if lat := strings.Index(r, " at loop "); lat >= 0 {
+						delta, err := mkClause(strings.TrimSpace(r[:lat]))
+						if err != nil {
+							return err
+						}
+						k, err := strconv.Atoi(strings.TrimSpace(r[lat+len(" at loop "):]))
+						if err != nil || k <= 0 {
+							return fmt.Errorf("%s: ghost ... at loop K: bad loop ordinal", where)
+						}
+						cur.Ghost = append(cur.Ghost, GhostUpd{Name: name, Callee: fmt.Sprintf("loop:%d", k), Delta: delta})
+						continue
+					}
+					return fmt.Errorf("%s: ghost clause needs 'at call', 'after call' or 'at loop'", where)
 				}
 				delta, err := mkClause(strings.TrimSpace(r[:at]))
 				if err != nil {
